@@ -827,8 +827,17 @@ func (in *Interp) rangeIter(x Value) *Iter {
 		if x != nil {
 			it.keys = append([]Value(nil), x.Keys...)
 			it.vals = append([]Value(nil), x.Vals...)
-			if in.Cfg.NondetMapOrder && len(it.keys) > 1 {
-				in.permute(it)
+			if in.permSite >= 0 && len(it.keys) > 1 && in.curRange != nil {
+				// sites are numbered in the order of their first execution since vMapOrderSite
+				id, ok := in.rangeSites[in.curRange]
+				if !ok {
+					id = len(in.rangeSites)
+					in.rangeSites[in.curRange] = id
+				}
+				if id == in.permSite && in.permInstances < 6 {
+					in.permInstances++
+					in.permute(it)
+				}
 			}
 		}
 		return it
@@ -836,17 +845,34 @@ func (in *Interp) rangeIter(x Value) *Iter {
 	panic(fmt.Sprintf("range over %T", x))
 }
 
-// permute orders the iteration by symbolic choices (Lehmer code); one variable per position.
+// permute orders the iteration by symbolic choices: a full symbolic permutation
+// (Lehmer code) for <= 4 entries, otherwise a symbolic rotation optionally reversed.
 func (in *Interp) permute(it *Iter) {
 	n := len(it.keys)
-	if n > 4 {
-		in.unsupported("nondeterministic map order over %d entries (limit 4)", n)
-	}
 	in.mapOrd++
+	in.Notes["nondet-map-order"]++
+	if n > 4 {
+		rot := in.NewVar(fmt.Sprintf("maprot%d", in.mapOrd), 8)
+		ok := Sc{C: b2u(rot.C < uint64(n)), T: in.St.Cmp(sym.OpUlt, rot.T, in.St.Const(8, uint64(n)))}
+		if !in.branch(ok, RecAssume, "mapord") {
+			in.abort(StAssumeFail, "mapord")
+		}
+		r := int(in.concretize(rot, 8, "mapord"))
+		rev := in.NewVar(fmt.Sprintf("maprev%d", in.mapOrd), 0)
+		keys := append(append([]Value(nil), it.keys[r:]...), it.keys[:r]...)
+		vals := append(append([]Value(nil), it.vals[r:]...), it.vals[:r]...)
+		if in.branch(rev, RecBranch, "mapord") {
+			for i, j := 0, n-1; i < j; i, j = i+1, j-1 {
+				keys[i], keys[j] = keys[j], keys[i]
+				vals[i], vals[j] = vals[j], vals[i]
+			}
+		}
+		it.keys, it.vals = keys, vals
+		return
+	}
 	for i := 0; i < n-1; i++ {
 		v := in.NewVar(fmt.Sprintf("mapord%d_%d", in.mapOrd, i), 8)
 		rem := uint64(n - i)
-		// assume v < rem
 		ok := Sc{C: b2u(v.C < rem), T: in.St.Cmp(sym.OpUlt, v.T, in.St.Const(8, rem))}
 		if !in.branch(ok, RecAssume, "mapord") {
 			in.abort(StAssumeFail, "mapord")
